@@ -205,6 +205,41 @@ func init() {
 			}
 			cw.add("skip", "skip", "N conc json-readers", prop)
 		}
+		// clients created concurrently, each with its own key
+		{
+			var wg5 sync.WaitGroup
+			errs := make([]string, 8)
+			for w := 0; w < 8; w++ {
+				wg5.Add(1)
+				go func(w int) {
+					defer wg5.Done()
+					defer func() {
+						if r := recover(); r != nil {
+							errs[w] = fmt.Sprint("panic: ", r)
+						}
+					}()
+					for k := 0; k < 400; k++ {
+						key := fmt.Sprintf("key-%d-%d", w, k)
+						cl, err := rscp.NewClient(rscp.ClientConfig{Address: "h", Username: "u", Password: "p", Key: key})
+						if err != nil || cl == nil {
+							errs[w] = fmt.Sprint("NewClient fails: ", err)
+							return
+						}
+						if got := rscp.VerifCreateAESKey(key); string(got[:len(key)]) != key {
+							errs[w] = "key derivation differs"
+						}
+					}
+				}(w)
+			}
+			wg5.Wait()
+			prop := "pass"
+			for _, e := range errs {
+				if e != "" {
+					prop = "FAIL C17 clients created concurrently: " + trunc(e, 120)
+				}
+			}
+			cw.add("skip", "skip", "N conc newclient-together", prop)
+		}
 		// clients over real TCP, each with its own device and its own connection time-out, connecting and reconnecting at
 		// the same time (the race detector watches; every reply has to be the client's own)
 		{
